@@ -86,3 +86,61 @@ def write(path, text):
     with open(path, 'w', encoding='utf-8') as f:
         f.write(text)
     return path
+
+
+def pipeline_txns(txns, rnd, twins=True):
+    """Pool transactions as one statement file would carry them: one source, stripped cells, a date, a non-zero amount; plus
+    'twins' that repeat a row's description, amount and date and differ only in custom columns / location."""
+    src = rnd.choice(['Amex', 'Chase', 'amex', 'x'])
+    out = []
+    for t in txns:
+        d = (t.get('description') or '').strip()
+        if not d or t.get('date') is None or not t.get('amount') or '\n' in d:
+            continue
+        f = t.get('field') or {}
+        u = {'description': d, 'amount': float(t['amount']), 'date': t['date'], 'source': src,
+             'location': (t.get('location') or '').strip() or 'ZZ',
+             'field': {'memo': str(f.get('memo', '')).strip(), 'code': str(f.get('code', '')).strip()}}
+        out.append(u)
+    if twins:
+        from vt import world
+        for u in list(out):
+            if rnd.random() < .5:
+                v = copy.deepcopy(u)
+                which = rnd.randrange(4)
+                if which in (0, 3):
+                    v['field']['memo'] = rnd.choice(world.MEMOS).strip()
+                if which in (1, 3):
+                    v['field']['code'] = rnd.choice(world.CODES).strip()
+                if which == 2:
+                    v['location'] = rnd.choice(['WA', 'NY', 'Seattle, WA', 'ZZ'])
+                out.insert(rnd.randint(0, len(out)), v)
+    return out
+
+
+def pipeline_results(rules, transforms, ptxns, rows, tmp):
+    """The statement-reading pipeline: write the rows as a CSV, read it with parse_generic_csv exactly as `tally up` does."""
+    import csv
+    from tally.format_parser import parse_format_string
+    from tally.parsers import parse_generic_csv
+    path = os.path.join(tmp, 'stmt.csv')
+    with open(path, 'w', newline='', encoding='utf-8') as f:
+        w = csv.writer(f)
+        w.writerow(['Date', 'Description', 'Amount', 'Memo', 'Code', 'Where'])
+        for t in ptxns:
+            w.writerow([t['date'].isoformat(), t['description'], repr(t['amount']), t['field']['memo'], t['field']['code'], t['location']])
+    spec = parse_format_string('{date:%Y-%m-%d},{description},{amount},{memo},{code},{location}')
+    try:
+        got = parse_generic_csv(path, spec, rules, source_name=ptxns[0]['source'] if ptxns else 'CSV', transforms=transforms,
+                                data_sources=copy_rows(rows))
+    except Exception as e:
+        raise ImplError('parse_generic_csv', e)
+    res = []
+    for g in got:
+        unknown = (g['category'] == 'Unknown' and g['subcategory'] == 'Unknown')
+        info = g.get('match_info') or {}
+        res.append({'triple': None if unknown else (g['merchant'], g['category'], g['subcategory']),
+                    'fallback': g['merchant'] if unknown else None, 'tags': set(g.get('tags') or []),
+                    'fields': {k: lang.norm(v) for k, v in (g.get('extra_fields') or {}).items()},
+                    'raw_description': g.get('raw_description'), 'amount': g['amount']})
+    return res
